@@ -67,7 +67,7 @@ def main() -> int:
                            VMC_REPLAY_DIR=os.path.join(scratch, "replays"))
                 env.setdefault("VMC_PROGRAM_BUDGET_S", "60")  # mutants may blow up the schedule space
                 env.setdefault("VMC_EXEC_CAP_S", "15")
-                proc = subprocess.Popen([sys.executable, "-m", "vmc.run", c, "--tier", args.tier], cwd="/verif",
+                proc = subprocess.Popen([sys.executable, "-m", "vmc.run", c, "--tier", args.tier], cwd=os.path.dirname(os.path.dirname(os.path.abspath(__file__))),
                                         env=env, stdout=subprocess.PIPE, stderr=subprocess.PIPE, text=True,
                                         start_new_session=True)
                 try:
